@@ -1,5 +1,8 @@
 // Run-time monitors evaluated inside simulated searches (C03, C04, C07) and
 // harness-side checks executed while the engine is quiescent (driver ops).
+#include <sys/wait.h>
+#include <unistd.h>
+
 #include <algorithm>
 #include <cstdio>
 #include <cstring>
@@ -148,6 +151,8 @@ struct Monitors
     ref::Game root_game_copy;
     // driver-side snapshot
     Snap driver_snap;
+    // C14: first value seen for each probed position
+    std::unordered_map<std::string, Value> first_eval;
 };
 
 void World::setup_monitors()
@@ -429,6 +434,77 @@ void World::monitor_after_undo(Task* t, const Position* pos, const Info* info)
     }
 }
 
+// ------------------------------------------------- pristine-process oracle --
+// "Pure function of the position" taken literally: the value computed for a position by a process that has never
+// evaluated anything else.  A server forked before this process' first world forks one grandchild per request; the
+// grandchild evaluates exactly one position with a new evaluator and exits.  Catches dependence on *any* retained
+// state, including function-local or file-scope statics that a fresh PositionScorer in this process would share.
+static int g_pr_to = -1, g_pr_from = -1;
+
+void pristine_server_start_once()
+{
+    static bool started = false;
+    if (started) return;
+    started = true;
+    int to[2], from[2];
+    if (pipe(to) != 0 || pipe(from) != 0) return;
+    fflush(nullptr);
+    pid_t pid = fork();
+    if (pid < 0) return;
+    if (pid == 0)
+    {
+        close(to[1]);
+        close(from[0]);
+        FILE* in = fdopen(to[0], "r");
+        char buf[512];
+        while (in && fgets(buf, sizeof buf, in))
+        {
+            std::string fen(buf);
+            while (!fen.empty() && (fen.back() == '\n' || fen.back() == '\r')) fen.pop_back();
+            pid_t g = fork();
+            if (g == 0)
+            {
+                Position p(fen);
+                auto sc = std::make_unique<PositionScorer>();
+                long long v = sc->score(p);
+                char out[64];
+                int n = snprintf(out, sizeof out, "%lld\n", v);
+                if (write(from[1], out, size_t(n)) != n) _exit(1);
+                _exit(0);
+            }
+            int st = 0;
+            waitpid(g, &st, 0);
+            if (!(WIFEXITED(st) && WEXITSTATUS(st) == 0))
+            {
+                const char* e = "ERR\n";
+                if (write(from[1], e, 4) != 4) _exit(1);
+            }
+        }
+        _exit(0);
+    }
+    close(to[0]);
+    close(from[1]);
+    g_pr_to = to[1];
+    g_pr_from = from[0];
+}
+
+static bool pristine_eval(const std::string& fen, Value& out)
+{
+    if (g_pr_to < 0) return false;
+    std::string l = fen + "\n";
+    if (write(g_pr_to, l.data(), l.size()) != ssize_t(l.size())) return false;
+    std::string r;
+    char c;
+    while (read(g_pr_from, &c, 1) == 1)
+    {
+        if (c == '\n') break;
+        r += c;
+    }
+    if (r.empty() || r == "ERR") return false;
+    out = atoll(r.c_str());
+    return true;
+}
+
 // ---------------------------------------------------------------- driver --
 static std::vector<std::string> split_bar(const std::string& s)
 {
@@ -503,12 +579,34 @@ void World::run_driver_op(const Op& op)
     }
     if (name == "c14probe" || name == "c14eval")
     {
+        int pristine_budget = 4;
         for (auto& fen : split_bar(args))
         {
             Position p(fen);
             Value a = uci->scorer.score(p);
             counters["c14_evals_on_session_evaluator"]++;
+            // the same position must always get the same value in this session
+            {
+                auto it = mon->first_eval.find(fen);
+                if (it == mon->first_eval.end()) mon->first_eval.emplace(fen, a);
+                else
+                {
+                    counters["c14_revisits"]++;
+                    if (it->second != a)
+                        violation("C14", "evaluation-changes-on-revisit", fen + ": first evaluated to " + std::to_string(it->second) + ", now " + std::to_string(a));
+                }
+            }
             if (name == "c14eval") continue;
+            if (pristine_budget-- > 0)
+            {
+                Value pv = 0;
+                if (pristine_eval(fen, pv))
+                {
+                    counters["c14_pristine_process_probes"]++;
+                    if (pv != a)
+                        violation("C14", "evaluation-differs-from-pristine-process", fen + ": session evaluator " + std::to_string(a) + ", a process that never evaluated anything else " + std::to_string(pv));
+                }
+            }
             auto fresh = std::make_unique<PositionScorer>();
             Value b = fresh->score(p);
             counters["c14_probes"]++;
